@@ -127,7 +127,9 @@ def mod_content(n):
     ops = [["Server", "x86_64", "perl:5.26", "tag", "S/x/perl.yaml", "binary", ["z-rpm", "a-rpm", "m-rpm"]],
            ["Server", "x86_64", "django:1.6", "tag", "S/x/django.yaml", "binary", ["d2", "d1"]],
            ["Client", "i386", "perl:5.26", "tag", "C/i/perl.yaml", "binary", ["z-rpm", "a-rpm"]]]
-    return {"fmt": "modules", "spec": None, "parts": [[["mod"] + o for o in ops]]}
+    # the same module again in other categories: its RPM list is extended in call order (content, not permuted)
+    again = [["mod", "Server", "x86_64", "perl:5.26", "tag", "S/x/perl-debug.yaml", "debug", ["q-dbg", "b-dbg", "z-rpm", "k-dbg", "c-dbg"]]]
+    return {"fmt": "modules", "spec": None, "parts": [[["mod"] + o for o in ops], again]}
 
 
 def extra_content(n):
@@ -256,6 +258,11 @@ def eval_repeat(ref):
     obj, text = build(content_of(ref), {})
     outs = [text]
     for _ in range(2):
+        if ref[0] == "extra":
+            import io
+            for variant in sorted(obj.extra_files):          # a per-tree export is a dump, too
+                for arch in sorted(obj.extra_files[variant]):
+                    obj.dump_for_tree(io.StringIO(), variant, arch, "%s/%s" % (variant[:1], arch[:1]))
         outs.append(TI.dumps(obj) if ref[0] == "ti" else obj.dumps())
     return {"all_identical": len(set(outs)) == 1}
 
@@ -286,7 +293,8 @@ def eval_lint(ref):
     if ref[0] == "extra":
         order = [[i["file"] for i in doc["payload"]["extra_files"]["Server"]["x86_64"]], ["S/x/zzz", "S/x/aaa", "S/x/mmm"]]
     elif ref[0] == "modules":
-        order = [doc["payload"]["modules"]["Server"]["x86_64"]["perl:5.26"]["rpms"], ["z-rpm", "a-rpm", "m-rpm"]]
+        order = [doc["payload"]["modules"]["Server"]["x86_64"]["perl:5.26"]["rpms"],
+                 ["z-rpm", "a-rpm", "m-rpm", "q-dbg", "b-dbg", "z-rpm", "k-dbg", "c-dbg"]]
     elif ref[0] == "im":
         imgs = [i for i in doc["payload"]["images"]["Server"]["x86_64"] if i.get("unified")]
         order = [imgs[0]["additional_variants"] if imgs else None, ["Server", "Client", "Everything"]] if ref[1] == 0 else []
